@@ -137,6 +137,39 @@ impl HnswVectorIndex {
         })
     }
 
+    /// Check an embedding against the index contract (dimension, finite values,
+    /// normalization for Cosine/InnerProduct) without mutating the index.
+    ///
+    /// Callers that log a mutation before applying it use this to refuse unusable
+    /// input before anything is written.
+    pub fn validate_embedding(&self, embedding: &[f32]) -> Result<()> {
+        if embedding.len() != self.dimension {
+            anyhow::bail!(
+                "Embedding dimension mismatch: expected {}, got {}",
+                self.dimension,
+                embedding.len()
+            );
+        }
+        if embedding.iter().any(|v| !v.is_finite()) {
+            anyhow::bail!("embedding contains non-finite values");
+        }
+        if matches!(
+            self.distance,
+            DistanceMetric::Cosine | DistanceMetric::InnerProduct
+        ) && !self.disable_normalization_check
+        {
+            let norm_sq = crate::simd::sum_squares_f32(embedding);
+            if !(NORMALIZATION_NORM_SQ_MIN..=NORMALIZATION_NORM_SQ_MAX).contains(&norm_sq) {
+                anyhow::bail!(
+                    "{:?} requires L2-normalized vectors; norm_sq={}",
+                    self.distance,
+                    norm_sq
+                );
+            }
+        }
+        Ok(())
+    }
+
     /// Add vector to index (no upserts, errors if full or wrong dimension)
     pub fn add_vector(&mut self, doc_id: u64, embedding: &[f32]) -> Result<()> {
         if embedding.len() != self.dimension {
